@@ -63,5 +63,24 @@ CHECKS = {
         note="Trusted: Numba type inference; xarray sortby/where/cumsum/argmax semantics; np.where returns ascending positions. Equality with a brute-force run counter is declined.",
         technique="static analysis: Numba typed-IR store types + guard/def-use descriptors on the CFG",
     ),
+    "C07": dict(
+        category=OTHER,
+        text="Formula conformance: after reaching-definition substitution the code's expressions are compared as rational normal forms over uninterpreted "
+             "special-function atoms with the formula of the statement: ndtri(p0 + (1-p0)*gammainc(alpha, x/beta)) under exactly `!= nodata and >= 0`, the p0 counting "
+             "loop, the gamma MLE sums over values > 0, s = log(mean) - mean(log), Thom's estimate with the +-40% bracket, the Brent root function, beta = mean/alpha, "
+             "the calibration slice, scale->round->store order of both drivers, float64 overloads of the special functions (typed IR), argument binding.",
+        note="Trusted: Numba type inference; the meaning of scipy.special.gammainc/ndtri/digamma; np.round half-even. Agreement with SciPy to one unit (accuracy of the "
+             "Brent port, float32 logarithms) is declined; the Brent iteration itself is not decided.",
+        technique="static analysis: reaching-definition substitution + rational normal-form equality against the statement's formula, guard descriptors",
+    ),
+    "C08": dict(
+        category=OTHER,
+        text="R-NARROW: the two float64->int16 array stores (located by Numba's typed IR) must be preceded on every path by a restriction of the scaled value to "
+             "the int16 range; no raise/assert and no unguarded scalar division in the nopython call graph of the two drivers; the unfittable-pixel arms "
+             "(no valid cell, >90% zeros, no fit) return all-nodata; p0/alpha/beta are loop-invariant in the per-cell expression (structural half of monotonicity).",
+        note="Trusted: Numba type inference; composition of non-decreasing maps. Monotonicity of SciPy's special functions at the float64 resolution limit and the "
+             "float differences inside the Brent port are declined (listed in the evidence).",
+        technique="static analysis: typed-IR narrowing stores + clip recognition on normal forms, call-graph raise-freedom, CFG division guards",
+    ),
 }
 NOT_APPLICABLE = {}
